@@ -124,6 +124,11 @@ class World(WorldBase):
         if sw["faults"] and self.held:
             choices += ["release"]
         kind = rng.choice(choices)
+        if self.held and rng.random() < 0.5:
+            # a client retries the cancelled call: same path, while the old exception is alive
+            op = self.gen_produce(rng, path=self.held[-1][2])
+            if op is not None:
+                return op
         if kind == "mk_config":
             return self.gen_config(rng)
         if kind == "produce":
@@ -177,13 +182,13 @@ class World(WorldBase):
             self.ctx.probe("regen_margin")
         raise RuntimeError("could not generate a configuration with margins")
 
-    def gen_produce(self, rng):
+    def gen_produce(self, rng, path=None):
         sw = self.swarm
         cname = rng.choice(sorted(self.configs))
         cfg = self.configs[cname]
         kinds = list(sw["producers"])
         kind = rng.choice(kinds)
-        op = {"op": "produce", "kind": kind, "cfg": cname, "path": rng.choice(sw["paths"])}
+        op = {"op": "produce", "kind": kind, "cfg": cname, "path": path or rng.choice(sw["paths"])}
         if kind == "Nnearests":
             if cfg.exact:
                 kind = op["kind"] = "cutoff"     # ties make N-nearest undecidable there
